@@ -14,7 +14,9 @@
    matching data operation on a path containing <substr>; kind = eio | enospc | short<k> (write k
    bytes then return k) | shorterr<k> (the n-th matching write writes k bytes and returns k, the next
    matching write fails with ENOSPC — every later one if sticky: a disk that fills up inside a
-   write) | fsync (fail fsync/fdatasync with EIO). */
+   write) | fsync (fail fsync/fdatasync with EIO) | hold<ms> (no failure: the thread issuing the n-th
+   matching write sleeps <ms> milliseconds BEFORE the write, outside the log mutex, so that other
+   threads run first — a directed schedule). */
 #define _GNU_SOURCE
 #include <dlfcn.h>
 #include <errno.h>
@@ -40,6 +42,7 @@ static int inited = 0;
 
 static int fail_n = 0, fail_sticky = 0, fail_count = 0, fail_short = -1, fail_then_err = 0;
 static char fail_kind[32] = "", fail_sub[256] = "";
+static int fail_hold = -1;   /* hold<ms>: milliseconds to sleep before the n-th matching write */
 
 static ssize_t (*real_write)(int, const void *, size_t);
 static int (*real_open64)(const char *, int, ...);
@@ -96,6 +99,7 @@ static void init(void) {
       fail_sticky = p4 && strcmp(p4, "sticky") == 0;
       if (strncmp(fail_kind, "shorterr", 8) == 0) { fail_short = atoi(fail_kind + 8); fail_then_err = 1; }
       else if (strncmp(fail_kind, "short", 5) == 0) fail_short = atoi(fail_kind + 5);
+      if (strncmp(fail_kind, "hold", 4) == 0) fail_hold = atoi(fail_kind + 4);
     }
   }
 }
@@ -117,7 +121,7 @@ static void logf_(const char *fmt, ...) {
 
 /* should this data operation fail? kind_is_sync: the operation is fsync/fdatasync */
 static int should_fail(const char *path, int is_sync) {
-  if (fail_n <= 0 || !path || !strstr(path, fail_sub)) return 0;
+  if (fail_n <= 0 || fail_hold >= 0 || !path || !strstr(path, fail_sub)) return 0;
   int want_sync = strcmp(fail_kind, "fsync") == 0;
   if (want_sync != is_sync) return 0;
   fail_count++;
@@ -199,6 +203,17 @@ static void log_write(int fd, long long off, const void *buf, size_t n) {
 ssize_t write(int fd, const void *buf, size_t n) {
   init();
   if (fd < 0 || fd >= MAXFD || !fdpath[fd]) return real_write(fd, buf, n);
+  if (fail_hold >= 0) {
+    /* directed schedule: count the matching writes; the n-th one waits (outside the mutex), then proceeds */
+    int wait = 0;
+    pthread_mutex_lock(&mu);
+    if (fdpath[fd] && !is_mark(fdpath[fd]) && strstr(fdpath[fd], fail_sub) && ++fail_count == fail_n) {
+      wait = 1;
+      logf_("H write fd=%d hold=%dms\n", fd, fail_hold);
+    }
+    pthread_mutex_unlock(&mu);
+    if (wait) usleep((useconds_t)fail_hold * 1000);
+  }
   pthread_mutex_lock(&mu);
   ssize_t r;
   int sf;
